@@ -3,6 +3,7 @@ import CogentModel.Model.TableOps
 import CogentModel.Spec.TableRows
 import CogentModel.Proofs.CsvRoundtrip
 import CogentModel.Proofs.TableOpsLemmas
+import CogentModel.Proofs.TableNamed
 /-! # C20 — property theorems
 
 Tables follow the list-of-rows model (`rowsOf` is the abstraction from the column store to the list
@@ -16,27 +17,59 @@ open CogentModel.Csv CogentModel.TableOps
 
 /-! ## delimited text -/
 
-/-- For ALL lists of records of ALL cells without CR/LF (any other character, including the
-delimiter, the quote character, spaces; empty cells, empty records, the lone-empty-field record):
-reading back what the QUOTE_MINIMAL writer wrote returns exactly the records.
-(Induction over the reader state machine: characters of a field, fields of a record, records.) -/
+/-- For ALL lists of records of ALL cells — any character, including the delimiter, the quote character,
+blanks, and CR / LF as far as they are characters of the lineterminator (so that QUOTE_MINIMAL quotes the
+cell); empty cells, empty records, the lone-empty-field record — and for both lineterminators "\n" (what
+`Table.write` passes) and "\r\n": reading back what the writer wrote returns exactly the records.
+The reader is the character-level state machine of `_csv.c` fed the lines of a `newline=''` stream;
+CR / LF inside quoted fields span lines.  (Induction over characters, fields, records.) -/
 theorem csv_roundtrip (d : Dialect) (g : GoodDialect d) (rows : List Row)
-    (hn : ∀ r ∈ rows, ∀ f ∈ r, NoNL f) :
+    (hn : ∀ r ∈ rows, ∀ f ∈ r, Quotable d f) :
     csvRead d.delim (csvWrite d rows) = .ok rows :=
-  csv_roundtrip' g rows hn
+  csv_roundtrip_general g rows hn
 
-example : GoodDialect ⟨'\t', ['\n']⟩ := ⟨rfl, by decide, by decide⟩
-example : GoodDialect ⟨',', ['\n']⟩ := ⟨rfl, by decide, by decide⟩
-example : ∀ r ∈ [[['a', '\t', 'b'], [], ['q', '"', 'r']], [[]], [], [[], []]], ∀ f ∈ r, NoNL f := by
-  simp [NoNL, isNL]
-example : csvWrite ⟨'\t', ['\n']⟩ [[['a', '\t', 'b'], [], ['q', '"', 'r']], [[]], [], [[], []]]
-    = "\"a\tb\"\t\t\"q\"\"r\"\n\"\"\n\n\t\n".toList := by decide
+/-- with the excel default lineterminator "\r\n" there is no restriction on the cells at all -/
+theorem csv_roundtrip_crlf (delim : Char) (hq : delim ≠ quoteCh) (hnl : isNL delim = false) (rows : List Row) :
+    csvRead delim (csvWrite ⟨delim, ['\r', '\n']⟩ rows) = .ok rows := by
+  apply csv_roundtrip_general (d := ⟨delim, ['\r', '\n']⟩) ⟨Or.inr rfl, hq, hnl⟩
+  intro r _ f _ c _ hc
+  simp [isNL] at hc
+  rcases hc with rfl | rfl <;> simp
+
+/-- … and with "\n" every cell without a bare CR is covered (LF inside cells is quoted) -/
+theorem csv_roundtrip_lf (delim : Char) (hq : delim ≠ quoteCh) (hnl : isNL delim = false) (rows : List Row)
+    (hcr : ∀ r ∈ rows, ∀ f ∈ r, '\r' ∉ f) :
+    csvRead delim (csvWrite ⟨delim, ['\n']⟩ rows) = .ok rows := by
+  apply csv_roundtrip_general (d := ⟨delim, ['\n']⟩) ⟨Or.inl rfl, hq, hnl⟩
+  intro r hr f hf c hc hn
+  simp [isNL] at hn
+  rcases hn with rfl | rfl
+  · simp
+  · exact absurd hc (hcr r hr f hf)
+
+/- FULL STATEMENT (not proved): `csv_roundtrip_lf` without `hcr`.  It is false for the writer as CPython 3.12
+   implements it (and as the model mirrors it): QUOTE_MINIMAL quotes a field only for the delimiter, the quote
+   character and the characters OF THE LINETERMINATOR, so with lineterminator "\n" a cell "a\rb" is written
+   unquoted and read back as two records (`csv_cr_counter`).  Cells with CR are outside the property (printable
+   ASCII); `Table`'s loader additionally opens files with universal newlines, which rewrites CR. -/
+theorem csv_cr_counter :
+    (csvRead '\t' (csvWrite ⟨'\t', ['\n']⟩ [[['a', '\r', 'b']]])).toOption = some [[['a']], [['b']]] := by decide
+
+example : GoodDialect ⟨'\t', ['\n']⟩ := ⟨Or.inl rfl, by decide, by decide⟩
+example : GoodDialect ⟨',', ['\r', '\n']⟩ := ⟨Or.inr rfl, by decide, by decide⟩
+example : ∀ r ∈ [[['a', '\t', 'b'], [], ['q', '"', 'r'], ['x', '\n', 'y']], [[]], [], [[], []]],
+    ∀ f ∈ r, Quotable ⟨'\t', ['\n']⟩ f := by
+  simp [Quotable, isNL]
+example : csvWrite ⟨'\t', ['\n']⟩ [[['a', '\t', 'b'], [], ['q', '"', 'r'], ['x', '\n', 'y']], [[]], [], [[], []]]
+    = "\"a\tb\"\t\t\"q\"\"r\"\t\"x\ny\"\n\"\"\n\n\t\n".toList := by decide
+example : (csvRead '\t' "\"a\tb\"\t\t\"q\"\"r\"\t\"x\ny\"\n\"\"\n\n\t\n".toList).toOption
+    = some [[['a', '\t', 'b'], [], ['q', '"', 'r'], ['x', '\n', 'y']], [[]], [], [[], []]] := by decide
 
 /-- `Table.write` (title row, header, rows, legend row) followed by `load_delimited` returns the
 header, the cell text, the title and the legend unchanged. -/
 theorem table_text_roundtrip (d : Dialect) (g : GoodDialect d) (title legend : Str) (header : Row)
-    (rows : List Row) (ht : NoNL title) (hl : NoNL legend) (hh : ∀ f ∈ header, NoNL f)
-    (hn : ∀ r ∈ rows, ∀ f ∈ r, NoNL f) :
+    (rows : List Row) (ht : Quotable d title) (hl : Quotable d legend) (hh : ∀ f ∈ header, Quotable d f)
+    (hn : ∀ r ∈ rows, ∀ f ∈ r, Quotable d f) :
     loadDelimited d.delim (title ≠ []) (legend ≠ []) (tableWrite d title header rows legend)
       = .ok (header, rows, title, legend) :=
   table_text_roundtrip' g title legend header rows ht hl hh hn
@@ -239,5 +272,134 @@ theorem transposed_rows_are_zip {α : Type} (dflt : α) (cols : List (List α)) 
 
 example : TableRows.transpose 0 2 (rowsOf 0 [[1, 2, 3], [4, 5, 6]]) = [[1, 2, 3], [4, 5, 6]] ∧
     rowsOf 0 (transposeCols 0 [[1, 2, 3], [4, 5, 6]]) = [[1, 2, 3], [4, 5, 6]] := by decide
+
+/-! ## the NAMED layer (what the driver runs against the real `Table`)
+
+`Table.*` below are the functions with column names, `columns=` resolution, `right_` prefix, title column,
+index_name.  `Table.WFT`: one column per header name, equally long columns, the index_name names a column.
+`IndexOK t names`: the index column is absent from `names` or is its first entry — under this hypothesis
+`table[:, columns]` returns the columns in the requested order; otherwise the code (and the model) puts the
+index column first and the callers mis-address the cells: `index_column_first_counter`, the open finding
+C20-index-column-moved-first-in-subtables. -/
+
+/-- `columns=` resolution: success iff every name is a column; the positions found carry those names -/
+theorem named_resolution (t : Table) (names : List String) (sel : List Nat) (h : t.idxsOf names = .ok sel) :
+    sel.map t.name = names ∧ (∀ j ∈ sel, j < t.header.length) ∧ sel.length = names.length :=
+  idxsOf_ok t names sel h
+
+example : (cexT.idxsOf ["a", "k"]).toOption = some [1, 0] := by decide
+
+theorem named_filtered_eq (t : Table) (p : List Cell → Bool) (names : List String) (r : Table)
+    (hi : IndexOK t names) (h : t.filtered p names = .ok r) :
+    (nrows t.cols = 0 ∧ r = t) ∨
+    ∃ sel, t.idxsOf names = .ok sel ∧ r.header = t.header ∧ r.index = t.index ∧
+      r.rows = TableRows.filtered dfl p sel t.rows :=
+  named_filtered t p names r hi h
+
+theorem named_count_eq (t : Table) (p : List Cell → Bool) (names : List String) (n : Nat)
+    (hi : IndexOK t names) (h : t.count p names = .ok n) :
+    (nrows t.cols = 0 ∧ n = 0) ∨
+    ∃ sel, t.idxsOf names = .ok sel ∧ n = (TableRows.filtered dfl p sel t.rows).length :=
+  named_count t p names n hi h
+
+theorem named_row_indices_eq (t : Table) (p : List Cell → Bool) (names : List String) (negate : Bool)
+    (m : List Bool) (hi : IndexOK t names) (h : t.rowIndices p names negate = .ok m) :
+    ∃ sel, t.idxsOf names = .ok sel ∧ m = t.rows.map (fun row => p (TableRows.proj dfl sel row) != negate) :=
+  named_row_indices t p names negate m hi h
+
+/-- the witness of the open finding on the model: table (k*, a) with index k, `filtered(r[0]=='y', columns=[a, k])`:
+the row oracle keeps row (q, y), the code (and the model) keeps nothing because the callback sees (k, a) -/
+theorem index_column_first_counter :
+    ¬ IndexOK cexT ["a", "k"] ∧
+    (cexT.filtered cexP ["a", "k"]).toOption.map Table.rows = some [] ∧
+    (cexT.idxsOf ["a", "k"]).toOption = some [1, 0] ∧
+    TableRows.filtered dfl cexP [1, 0] cexT.rows = [[.str "q", .str "y"]] := by
+  refine ⟨?_, by decide, by decide, by decide⟩
+  intro h
+  simp [IndexOK, cexT] at h
+
+example : IndexOK cexT ["k", "a"] := Or.inr ⟨["a"], rfl, by simp⟩
+
+theorem named_distinct_values_eq (t : Table) (names : List String) (res : List (List Key)) (hw : t.WFT)
+    (hne : names ≠ []) (hi : IndexOK t names) (h : t.distinctValues names = .ok res) :
+    ∃ sel, t.idxsOf names = .ok sel ∧ res.Nodup ∧
+      ∀ k, k ∈ res ↔ TableRows.isDistinctValue dfl Cell.key sel t.rows k :=
+  named_distinct_values t names res hw hne hi h
+
+theorem named_with_new_column_eq (t : Table) (newName : String) (f : List Cell → Cell) (names : List String)
+    (r : Table) (hw : t.WFT) (hc : t.cols ≠ []) (hnew : newName ∉ t.header) (hi : IndexOK t names)
+    (h : t.withNewColumn newName f names = .ok r) :
+    ∃ sel, t.idxsOf names = .ok sel ∧ r.header = t.header ++ [newName] ∧ r.index = t.index ∧
+      r.rows = TableRows.withNewColumn dfl f sel t.rows :=
+  named_with_new_column t newName f names r hw hc hnew hi h
+
+/-- column selection: the index column is shown FIRST if selected (`subNames`, stated explicitly) -/
+theorem named_take_cols_eq (t : Table) (names : List String) (r : Table) (hw : t.WFT) (hne : names ≠ [])
+    (h0 : nrows t.cols ≠ 0) (h : t.takeCols names = .ok r) :
+    ∃ sel, t.idxsOf (t.subNames names) = .ok sel ∧ r.header = t.subNames names ∧
+      r.rows = TableRows.select dfl sel t.rows :=
+  named_take_cols t names r hw hne h0 h
+
+example : cexT.subNames ["a", "k"] = ["k", "a"] := by decide
+
+/-- `inner_join` / `joined` on named tables: header = self's header ++ prefixed non-key columns of other, rows =
+nested-loop join of the row lists on the named key columns, index_name = self's or none -/
+theorem named_inner_join_eq (t u : Table) (ks ko : List String) (pre : String) (r : Table)
+    (hwt : t.WFT) (hwu : u.WFT) (hc : t.cols ≠ []) (hks : ks ≠ []) (hko : ko ≠ [])
+    (hit : IndexOK t ks) (hiu : IndexOK u ko) (h : t.innerJoin u ks ko pre = .ok r) :
+    ∃ kS kO, t.idxsOf ks = .ok kS ∧ u.idxsOf ko = .ok kO ∧
+      r.header = t.header ++ (u.header.filter (fun c => !ko.contains c)).map (pre ++ ·) ∧
+      r.rows = TableRows.innerJoin dfl Cell.key kS kO
+        ((List.range u.header.length).filter fun j => !(ko.contains (u.name j))) t.rows u.rows ∧
+      (r.index = none ∨ r.index = t.index) :=
+  named_inner_join t u ks ko pre r hwt hwu hc hks hko hit hiu h
+
+/-- `joined(other)` without key columns joins BY NAME on the shared columns (same list for both tables) -/
+theorem natural_join_keys_by_name (t u : Table) :
+    (t.naturalKeys u).1 = (t.naturalKeys u).2 ∧
+    ∀ c, c ∈ (t.naturalKeys u).1 ↔ c ∈ t.header ∧ c ∈ u.header :=
+  natural_keys_by_name t u
+
+example : ({ header := ["x", "y"], cols := [[], []] } : Table).naturalKeys { header := ["y", "w", "x"], cols := [[], [], []] }
+    = (["x", "y"], ["x", "y"]) := by decide
+
+/-- `appended` on named tables, with and without the title column; columns matched by name -/
+theorem named_appended_eq (t : Table) (newCol : Option String) (others : List Table) (r : Table)
+    (hw : ∀ u ∈ t :: others, u.WFT) (hh : t.header ≠ []) (h : t.appended newCol others = .ok r) :
+    ∃ Rs : List (List (List Cell)),
+      Rs.length = (t :: others).length ∧
+      (∀ i (h1 : i < (t :: others).length) (h2 : i < Rs.length), ∃ sel,
+        ((t :: others)[i]).idxsOf t.header = .ok sel ∧ Rs[i] = TableRows.select dfl sel ((t :: others)[i]).rows) ∧
+      (r.index = none ∨ r.index = t.index) ∧
+      match newCol with
+      | none => r.header = t.header ∧ r.rows = TableRows.appended Rs
+      | some n => r.header = n :: t.header ∧
+          r.rows = TableRows.appendedWithTitle ((t :: others).map fun u => Cell.str u.title) Rs :=
+  named_appended t newCol others r hw hh h
+
+/-- `sorted` on named tables: column-list logic, names resolved, the model's key record is `keyT` of the
+requested transforms (`sortKeyOf_eq_keyT`), hence: same header and index_name, a permutation of the rows,
+ordered by the requested keys in the requested directions -/
+theorem named_sorted_order (t : Table) (columns : Option (List String)) (reverse : List String) (r : Table)
+    (hw : t.WFT) (h2 : 2 ≤ nrows t.cols) (h : t.sorted columns reverse = .ok r) :
+    ∃ sel, t.idxsOf (sortColumns t.header columns reverse) = .ok sel ∧ r.header = t.header ∧ r.index = t.index ∧
+      r.rows.Perm t.rows ∧
+      r.rows.Pairwise (fun a b =>
+        mixedLe ((sortColumns t.header columns reverse).map (reverse.contains ·)) (rowFields sel a) (rowFields sel b) = true) :=
+  named_sorted t columns reverse r hw h2 h
+
+example : ({ header := ["s", "n"], cols := [[.str "a", .str "ab", .str "b"], [.int 1, .int 2, .int 3]] } : Table).WFT :=
+  ⟨rfl, by intro c hc; simp at hc; rcases hc with rfl | rfl <;> rfl, by simp⟩
+example : sortColumns ["s", "n", "x"] (some ["n"]) ["s"] = ["n", "s"] := by decide
+example : mixedLe [false, true] [.num 1, .str [97, 98]] [.num 1, .str [97]] = true := by decide
+
+/-- index_name rule of `inner_join` / `appended` results: they never fail on first use -/
+theorem result_index_is_usable (idx : Option String) (header : List String) (cols : List (List Cell)) (title : String)
+    (hw : WF cols) (hn : cols.length = header.length) :
+    ∃ r, Table.observe { header := header, cols := cols, title := title,
+                         index := keepIndexIfUnique idx header cols } = .ok r :=
+  observe_keepIndex_ok idx header cols title hw hn
+
+example : keepIndexIfUnique (some "k") ["k"] [[.str "a", .str "a"]] = none := by decide
 
 end CogentModel.C20
